@@ -22,7 +22,8 @@ P = {
         {'name': 'bankops', 'n': {'quick': 300, 'thorough': 12000}, 'shrink_field': 'ops', 'batch': 5000},
     ],
     'coq_header': 'From HV Require Import Bank.InvariantModel.\nFrom Coq Require Import ZArith NArith List.\nImport ListNotations.',
-    'lists': {'ops': {'type': 'case', 'check': 'mismatches', 'shard': 40}},
+    'lists': {'ops': {'type': 'case', 'check': 'mismatches', 'shard': 40},
+              'hist': {'type': 'hcase', 'check': 'hmismatches', 'shard': 400}},
     'search': {'rounds': 3, 'n': 60},
     'rule': 'invariants: a case is one block history (quick: 20 blocks, thorough: 40) of 0-6 transactions per block on a fresh real '
             'application with 2-4 validators: really signed Cosmos transactions (bank send, delegate / undelegate / redelegate / cancel '
